@@ -96,16 +96,18 @@ def run(chk):
         evs = []
         # two distinct identities that differ in one byte only (the first, a middle or the last one: see `peer` in the driver)
         pa, pb = rng.choice([(1, 2), (2, 3), (6, 12), (3, 9), (4, 5), (0, 4), (8, 14)])
+        # in half of the cases every request of a peer asks for a different route
+        routed = i % 4 >= 2
         for p in (pa, pb):
             for j in range(burst + 3):
-                evs.append("%d@%d" % (p, 0 if p == pa else 5))
+                evs.append("%d@%d%s" % (p, 0 if p == pa else 5, "@%d" % j if routed else ""))
         evs.append("%d@%d" % (pa, period * (burst + 2)))
         if i % 2 == 0 or i % 4 == 1:
             # a client that honours the hint: refused at 0, it comes back just after one period, three requests at a time,
             # for four periods (each time one cell has been replenished)
             evs.pop()
             for cyc in range(1, 5):
-                evs += ["%d@%d" % (pa, cyc * (period + 3))] * 3
+                evs += ["%d@%d%s" % (pa, cyc * (period + 3), "@%d" % (10 * cyc + q) if routed else "") for q in range(3)]
         rl.append("ratelayer %s%s %d %d %s" % (mode, usage, period, burst, " ".join(evs)))
     # many peers: one peer exhausts its quota (period one hour), then 1100-3000 other identities send one request each,
     # then the first peer again: still over its quota, whatever the number of peers the layer has seen in between
